@@ -1278,11 +1278,21 @@ class ComplexModelBase(ModelBase):
     def _process_variants(cls, retval):
         orig = getattr(retval, '__orig__', None)
         if orig is not None:
-            if orig.Attributes._variants is None:
-                orig.Attributes._variants = WeakKeyDictionary()
-            orig.Attributes._variants[retval] = True
+            variants = orig._get_variants()
+            if variants is None:
+                variants = orig.Attributes._variants = WeakKeyDictionary()
+            variants[retval] = True
             # _variants is only for the root class.
             retval.Attributes._variants = None
+
+    @classmethod
+    def _get_variants(cls):
+        """The customized variants of this very class. Not
+        ``cls.Attributes._variants``: Attributes classes inherit from each
+        other, so a subclass would find (and update) the variants of its
+        parent."""
+
+        return vars(cls.Attributes).get('_variants', None)
 
     @classmethod
     def _append_field_impl(cls, field_name, field_type):
@@ -1305,8 +1315,9 @@ class ComplexModelBase(ModelBase):
 
     @classmethod
     def _append_to_variants(cls, field_name, field_type):
-        if cls.Attributes._variants is not None:
-            for c in cls.Attributes._variants:
+        variants = cls._get_variants()
+        if variants is not None:
+            for c in variants:
                 c.append_field(field_name, field_type)
 
     @classmethod
@@ -1316,8 +1327,9 @@ class ComplexModelBase(ModelBase):
 
     @classmethod
     def _insert_to_variants(cls, index, field_name, field_type):
-        if cls.Attributes._variants is not None:
-            for c in cls.Attributes._variants:
+        variants = cls._get_variants()
+        if variants is not None:
+            for c in variants:
                 c.insert_field(index, field_name, field_type)
 
     @classmethod
@@ -1347,8 +1359,9 @@ class ComplexModelBase(ModelBase):
 
     @classmethod
     def _replace_in_variants(cls, field_name, field_type):
-        if cls.Attributes._variants is not None:
-            for c in cls.Attributes._variants:
+        variants = cls._get_variants()
+        if variants is not None:
+            for c in variants:
                 c._replace_field(field_name, field_type)
 
     @classmethod
